@@ -487,6 +487,17 @@ func c14Leaves(p *Prog, c *Check) {
 				used = append(used, shortCallee(nm)+"↔"+shortCallee(inv))
 			}
 		}
+		// the encoded string itself is produced by a recognised encoder (a library call this table knows
+		// the inverse of, or a sibling codec): anything else has no decoder counterpart to be compared with
+		for _, r := range returnsOf(ef) {
+			t := efi.T(r.Results[0])
+			cn := t.callName()
+			_, lib := libInverse[cn]
+			_, sib := codecPairs[lastName2(cn)]
+			if t.K != TCall || !(lib || sib && strings.Contains(cn, "shutterevents.")) {
+				diffs = append(diffs, fmt.Sprintf("%s returns %s, which is not produced by an encoder with a known inverse", enc, siteTag.ReplaceAllString(t.s, "")))
+			}
+		}
 		c.Result(len(diffs) == 0, rule, "codec:"+enc+"↔"+dec, p.Rel(df.Pos()), shortFn(df), enc+" ↔ "+dec, strings.Join(diffs, "; "), used...)
 		// decoder error discipline
 		for _, b := range df.Blocks {
